@@ -137,9 +137,8 @@ class Monitors:
                 setattr(wrapper, attr, getattr(fn, attr))
         self._set(owner, name, raw, kind, wrapper)
         for al in aliases:
-            araw = owner.__dict__[al]
-            self.saved.append((owner, al, araw))
-            setattr(owner, al, kind(wrapper) if kind else wrapper)
+            # an alias is wrapped around whatever IT is bound to (normally the same function)
+            self.wrap(owner, al, post, label=f"{label}[alias {al}]")
         return wrapper
 
     def wrap_gen(self, owner, name, done, label=None, aliases=()):
@@ -161,9 +160,7 @@ class Monitors:
         wrapper.__vf_original__ = fn
         self._set(owner, name, raw, kind, wrapper)
         for al in aliases:
-            araw = owner.__dict__[al]
-            self.saved.append((owner, al, araw))
-            setattr(owner, al, kind(wrapper) if kind else wrapper)
+            self.wrap_gen(owner, al, done, label=f"{label}[alias {al}]")
         return wrapper
 
     def uninstall(self):
